@@ -12,6 +12,12 @@ STRENGTHENED = {
     "C14": "concurrent FIRST picks after a list change (Picker.tla, firstpicks)",
     "C15": "every life of an endpoint, pokes of stale endpoint objects (EndpointLife.tla)",
     "C20": "label / annotation concretisation shapes (empty values, swapped keys, nil vs empty)",
+    "C01-r2": "request matched WHILE the policy list is replaced (RoutingSync.tla, matcher paused inside an attribute access)",
+    "C06-r2": "first concurrent callers of a freshly created bucket (BucketInit.tla, recreate step, released-together volleys)",
+    "C10-r2": "the name table after EVERY write of the controller (NameUpdate.tla, manager spy, MidOK)",
+    "C11-r2": "name-table differential against the fresh gateway in lagging histories (ResolveOK); was caught before only through a crash",
+    "C12-r2": "overlapping requests with one review held in flight (AuthCache.tla Pair / Flight)",
+    "C13-r2": "lease ground truth for served calls, leadership lost while the store's stop is slow",
 }
 rows = []
 for d in sorted(glob.glob("/verif/seeded/C*")):
